@@ -17,8 +17,8 @@ import time
 
 VERIF = os.path.dirname(os.path.dirname(os.path.abspath(__file__)))
 SEEDED = os.path.join(VERIF, "seeded")
-OUTFILE = os.path.join(SEEDED, "xmatrix.json")
-ROOT = "/tmp/xm"
+OUTFILE = os.environ.get("XM_OUT") or os.path.join(SEEDED, "xmatrix.json")   # XM_OUT: a side run that must not touch the matrix file
+ROOT = os.environ.get("XM_ROOT") or "/tmp/xm"
 
 
 def row(sid, checks):
